@@ -9,11 +9,12 @@
    EMITTED map operations, and compiled programs vs native Go, against the model on every run; the
    variant of $ifaceKeyFor is probed on the real runtime (Gen.C15_Tables.c15_iface_by_id).
 
-   One defect class remains in /repo and in the faithful model: a dynamic key type that is uncomparable
-   ONLY because of a blank struct field (struct{a int; _ []int}) does not panic (struct keyFor skips
-   blank fields and nothing consults the type's comparable flag).  It is refuted below by a witness;
-   the two theorems that speak about panics carry the hypothesis [nbu]/[all_dyn_nbu] excluding exactly
-   that class and keep the _partial suffix for that reason.  key_iff_eq and range_law are full strength. *)
+   All theorems are full strength for the prelude code as it is now (after 0da9cd0: $ifaceKeyFor throws for
+   an uncomparable dynamic type).  One assumption of the model is NOT true of every compiled program: the
+   type objects' `comparable` flags are taken to be exact.  A composite type ([n]B, struct{x B}) built over a
+   named struct type before that type's init() has run keeps a stale `comparable = true` and does not panic
+   as a key (known finding stale-comparable-flag-no-panic, probed by a compiled program; the node driver
+   initialises types in dependency order, where the flags are exact). *)
 From Coq Require Import List ZArith NArith Bool String.
 From Verif Require Import Model.C15_Keys Model.C15_JsMap Proofs.C15_Escape Proofs.C15_Keys Proofs.C15_More
                           Proofs.C15_Map Proofs.C15_Range Proofs.C15_RangeOnce Proofs.C15_Tables Gen.C15_Tables.
@@ -63,25 +64,23 @@ Print Assumptions C15_nan_never_equal.
 (* ---- map_refines: EVERY history of set / get / comma-ok / delete / len / literal / nil-assignment run
    with the emitted operations on the JS representation shows, operation by operation, the same
    observation and the same contents as the abstract Go map (association by ==, nil map, panics on
-   unhashable keys and on a store into a nil map).
-   _partial: [nbu t] and [all_dyn_nbu] (inside op_ok) exclude key types that are uncomparable only
-   through a blank field — the remaining defect; without unhashable keys nothing is excluded. *)
-Theorem C15_map_refines_partial :
+   unhashable keys and on a store into a nil map).  Keys: any well-typed values whose dynamic types are in D. *)
+Theorem C15_map_refines :
   forall (nts : Z -> str) (by_id : bool),
     (forall x y, is_zero_bits x = false -> is_zero_bits y = false -> nts x = nts y -> x = y) ->
     (forall x, is_zero_bits x = false -> nts x <> of_string "0") ->
     (forall x, nts x <> of_string "NaN") ->
     (forall x, plain (nts x)) ->
-  forall t, comparable t = true -> nbu t = true -> forall D, univ_ok by_id D ->
+  forall t, comparable t = true -> forall D, univ_ok by_id D ->
   forall ops m am s,
     wf s -> Rm nts by_id t D s m am -> Forall (op_ok t D) ops ->
     map js_view (run nts by_id t ops m s) = a_run t ops am.
 Proof. exact map_refines. Qed.
-Print Assumptions C15_map_refines_partial.
+Print Assumptions C15_map_refines.
 
 (* nil map: reads as empty, len 0, delete is a no-op, a store panics *)
 Theorem C15_nil_map :
-  forall (nts : Z -> str) (by_id : bool) t, comparable t = true -> nbu t = true -> forall D k v s,
+  forall (nts : Z -> str) (by_id : bool) t, comparable t = true -> forall D k v s,
     kok t D k -> wf s -> hashable t k = true ->
     fst (fst (step nts by_id t (OGet k) None s)) = RVal 0 /\
     fst (fst (step nts by_id t (OGet2 k) None s)) = RVal2 0 false /\
@@ -98,23 +97,20 @@ Theorem C15_hashable_has_key : forall nts by_id x ty s,
 Proof. exact hashable_has_key. Qed.
 Print Assumptions C15_hashable_has_key.
 
-(* ---- unhashable dynamic key types throw.  Full statement: *)
-Definition C15_unhashable_full_statement : Prop :=
-  forall nts x t s, wt t x = true -> hashable t x = false -> fst (key_for nts c15_iface_by_id t x s) = None.
-(* refuted on the current code by struct{a int; _ []int}: *)
-Theorem C15_blank_unhashable_no_throw_refuted :
+(* ---- unhashable dynamic key types throw: for every comparable static key type (the only ones the type
+   checker admits) and every key Go refuses to hash — slices, maps, funcs, arrays of any length and structs
+   containing them, also only in blank fields, at any depth, behind interfaces *)
+Theorem C15_unhashable_throws : forall nts by_id x t s,
+  wt t x = true -> comparable t = true -> hashable t x = false -> fst (key_for nts by_id t x s) = None.
+Proof. exact unhashable_throws. Qed.
+Print Assumptions C15_unhashable_throws.
+
+Theorem C15_blank_unhashable_throws :
   wt TIface (VDyn blank_slice (VStruct [VInt 1; VOpaque])) = true /\
   hashable TIface (VDyn blank_slice (VStruct [VInt 1; VOpaque])) = false /\
-  fst (key_for nts_dummy true TIface (VDyn blank_slice (VStruct [VInt 1; VOpaque])) st0) <> None.
-Proof. exact blank_unhashable_no_throw_refuted. Qed.
-Print Assumptions C15_blank_unhashable_no_throw_refuted.
-(* proved for every other unhashable key (slices, maps, funcs, arrays of any length incl. zero and structs
-   containing them in non-blank fields, at any depth, behind interfaces) *)
-Theorem C15_unhashable_throws_partial : forall nts by_id x t s,
-  wt t x = true -> nbu t = true -> all_dyn_nbu x = true -> hashable t x = false ->
-  fst (key_for nts by_id t x s) = None.
-Proof. exact unhashable_throws. Qed.
-Print Assumptions C15_unhashable_throws_partial.
+  fst (key_for nts_dummy true TIface (VDyn blank_slice (VStruct [VInt 1; VOpaque])) st0) = None.
+Proof. exact blank_unhashable_throws. Qed.
+Print Assumptions C15_blank_unhashable_throws.
 
 Theorem C15_zero_length_array_throws : forall nts by_id n l s,
   key_for nts by_id (TArray n TNoKey) (VArr l) s = (None, s).
@@ -182,17 +178,17 @@ Qed.
 
 (* non-vacuity of map_refines' hypotheses: an empty non-nil map, the adversarial pair above as keys *)
 Example C15_map_refines_nonvacuous :
-  comparable TIface = true /\ nbu TIface = true /\ Rm nts_dummy true TIface [ex_t] st0 (Some []) (Some []) /\
+  comparable TIface = true /\ Rm nts_dummy true TIface [ex_t] st0 (Some []) (Some []) /\
   Forall (op_ok TIface [ex_t]) [OSet ex_a 1; OSet ex_b 2; OLen; OGet2 ex_a; ODel ex_a; OLen] /\
   map js_view (run nts_dummy true TIface [OSet ex_a 1; OSet ex_b 2; OLen; OGet2 ex_a; ODel ex_a; OLen] (Some []) st0) =
   [(RUnit, [(ex_a, 1%Z)]); (RUnit, [(ex_a, 1%Z); (ex_b, 2%Z)]); (RLen 2, [(ex_a, 1%Z); (ex_b, 2%Z)]);
    (RVal2 1 true, [(ex_a, 1%Z); (ex_b, 2%Z)]); (RUnit, [(ex_b, 2%Z)]); (RLen 1, [(ex_b, 2%Z)])].
 Proof.
-  split; [reflexivity|]. split; [reflexivity|]. split; [constructor|]. split; [|vm_compute; reflexivity].
+  split; [reflexivity|]. split; [constructor|]. split; [|vm_compute; reflexivity].
   assert (Ka : kok TIface [ex_t] ex_a).
-  { split; [reflexivity|]. split; [|reflexivity]. intros d [<-|[]]. now left. }
+  { split; [reflexivity|]. intros d [<-|[]]. now left. }
   assert (Kb : kok TIface [ex_t] ex_b).
-  { split; [reflexivity|]. split; [|reflexivity]. intros d [<-|[]]. now left. }
+  { split; [reflexivity|]. intros d [<-|[]]. now left. }
   repeat (apply Forall_cons; [first [exact Ka | exact Kb | exact I]|]). apply Forall_nil.
 Qed.
 
